@@ -13,7 +13,7 @@ from fractions import Fraction
 import numpy as np
 
 from . import rfa_common as R
-from .core import fmt, fmt_list, fmt_ints, fmt_opt, parse_rats, frac, err_kind, close, exact, floats
+from .core import fmt, fmt_list, fmt_ints, fmt_opt, parse_rats, frac, err_kind, close, vclose, exact, floats
 
 DOMAIN = ["append", "shift_x", "shift_y", "scale_x", "scale_y", "norm_x", "norm_y", "repeat", "trunc_v", "trunc_i"]
 RESHAPE = ["recreate", "match", "interp", "smooth", "trend", "noise"]
@@ -30,6 +30,8 @@ def gen_init(rng, lo=4, hi=12):
     y = rng.values(m)
     if len(set(y)) == 1:
         y[0] += 1
+    if rng.random() < 0.1:
+        y = [v / 2 ** rng.choice([20, 30]) for v in y]       # small units
     return {"x": [str(v) for v in x], "y": [str(v) for v in y],
             "as_list": rng.random() < 0.25, "int_x": False, "x_none": rng.random() < 0.05}
 
@@ -131,6 +133,9 @@ def snap(w, caller):
             if isinstance(series[k], np.ndarray) and isinstance(series[o], np.ndarray) and np.shares_memory(series[k], series[o]):
                 al.append(f"{k}~{o}")
     out["alias"] = sorted(al)
+    # arrays handed in later (e.g. the grid given to interpolate) must stay what the caller passed
+    extra = getattr(w, "_verif_handed_in", [])
+    out["handed_in_intact"] = [bool(np.array_equal(a, orig)) for (a, orig) in extra]
     return out
 
 
@@ -296,6 +301,13 @@ def apply_op(w, op, rng_state=None):
             toks.append("@0")
             vals.append(float(x[0]))
         pos = sorted({min(int(Fraction(t) * (n - 1)), n - 2) for t in op["grid"]}) if n >= 2 else []
+        if op.get("same_len") and n >= 3:
+            # exactly n points: the two ends and the mid-points of the first n - 2 gaps
+            pos = []
+            for i in range(n - 2):
+                mid = (float(x[i]) + float(x[i + 1])) / 2
+                toks.append(fmt(Fraction(mid)))
+                vals.append(mid)
         for i in pos:
             if i >= 1 and (i % 2 == 0):
                 toks.append(f"@{i}")
@@ -309,6 +321,10 @@ def apply_op(w, op, rng_state=None):
         gl = ",".join(toks)
         op["_line"] = f"wop interpx {gl} {m} -"
         g = list(vals) if op.get("as_list") else np.array(vals)
+        if isinstance(g, np.ndarray):
+            if not hasattr(w, "_verif_handed_in"):
+                w._verif_handed_in = []
+            w._verif_handed_in.append((g, g.copy()))
         w.interpolate(new_x=g, method=m)
         ext = "-" if m in ("linear", "constant") else fmt_list([frac(v) for v in w.y])
         return f"wop interpx {gl} {m} {ext}"
@@ -429,7 +445,7 @@ def compare_program(c, io, mo):
             if not ans.startswith("ok "):
                 return f"step {i} (query): impl returned a slice, model says {ans[:60]}"
             f = ans[3:].split(" ")
-            if not (exact(st["query"][0], parse_rats(f[0])) and close(st["query"][1], parse_rats(f[1]))):
+            if not (vclose(st["query"][0], parse_rats(f[0])) and vclose(st["query"][1], parse_rats(f[1]))):
                 return f"step {i} (query): slices differ: impl {st['query'][0][:5]} model {f[0][:40]}"
             continue
         if "err" in st:
@@ -455,15 +471,26 @@ def compare_program(c, io, mo):
                 return f"step {i} ({what}): len({k}) impl {len(iv)} model {len(ms[k])}"
             if not all(math.isfinite(v) for v in iv):
                 return None   # non-finite values (constant data normalised, ...): outside the model
-            if not close(iv, ms[k], 1e-8):
+            if not vclose(iv, ms[k], 1e-8):
                 if k == "y" and i >= 1 and c["ops"][i - 1]["op"] == "interp" and c["ops"][i - 1]["method"] == "constant" \
                         and i - 1 >= 0 and "state" in steps[i - 1]:
                     # piecewise-constant interpolation is discontinuous at the samples: a grid point within rounding
                     # distance of a sample may legitimately fall on either side (comparison rule 4)
                     old = steps[i - 1]["state"]["x"]
-                    bad = [j for j, (a, b) in enumerate(zip(iv, ms[k])) if abs(a - float(b)) > 1e-8 * max(1, abs(float(b)))]
+                    sc = max([abs(float(b)) for b in ms[k]] + [1e-300])
+                    bad = [j for j, (a, b) in enumerate(zip(iv, ms[k])) if abs(a - float(b)) > 1e-8 * sc]
                     newx = st["state"]["x"]
                     if all(any(abs(newx[j] - o) <= 1e-9 * max(1.0, abs(o)) for o in old) for j in bad):
+                        return None
+                if k == "y" and i >= 1 and c["ops"][i - 1]["op"] == "match" and "state" in steps[i - 1]:
+                    # the fixed-point search is discontinuous: a reference position within rounding distance of a sample
+                    # (lower / higher) or of the mid-point between two samples (closest) may select either neighbour
+                    px = steps[i - 1]["state"]["x"]
+                    prx = steps[i - 1]["state"]["rx"]
+                    strat = c["ops"][i - 1].get("strategy", "closest")
+                    crit = list(px) if strat in ("lower", "higher") else [(a + b) / 2 for a, b in zip(px[:-1], px[1:])]
+                    span = max(abs(px[-1] - px[0]), 1e-300)
+                    if any(abs(t - q) <= 1e-9 * span for t in prx for q in crit):
                         return None
                 d = [(j, a, float(b)) for j, (a, b) in enumerate(zip(iv, ms[k])) if abs(a - float(b)) > 1e-8 * max(1, abs(float(b)))]
                 return f"step {i} ({what}): {k} differs, first {d[:3]}"
